@@ -17,6 +17,12 @@ import (
 // Run executes `<exe> <childMode> -in in -out part -skip N` repeatedly until all
 // scenarios of `in` are done; a crashed child yields a scenario "Begin, crash, End".
 func Run(childMode, in, out string, extra []string, perScenario time.Duration) (int, error) {
+	return RunWith(childMode, in, out, extra, perScenario, map[string]any{"qlen": 0, "conns": []int{}, "fault": "crash", "at": 0, "closers": 0, "stall": 0})
+}
+
+// RunWith is Run with the fields the "Begin" event of a crashed scenario carries (what the trace
+// specification of the module reads from a Begin line).
+func RunWith(childMode, in, out string, extra []string, perScenario time.Duration, crashBegin map[string]any) (int, error) {
 	exe, err := os.Executable()
 	if err != nil {
 		return 0, err
@@ -101,8 +107,11 @@ func Run(childMode, in, out string, extra []string, perScenario time.Duration) (
 		if done >= total {
 			break
 		}
-		// the scenario in flight crashed (or hung) the process
 		txt := stderr.String()
+		if strings.Contains(txt, "wedged: restarting") && !killed {
+			continue // the child recorded the wedged run itself and asked for a fresh process
+		}
+		// the scenario in flight crashed (or hung) the process
 		if i := strings.Index(txt, "panic:"); i >= 0 {
 			txt = txt[i:]
 		} else if i := strings.Index(txt, "fatal error:"); i >= 0 {
@@ -115,8 +124,12 @@ func Run(childMode, in, out string, extra []string, perScenario time.Duration) (
 		}
 		scn := done + 1
 		nb := lines + 4
+		begin := map[string]any{"ev": "Begin", "scn": scn}
+		for k, v := range crashBegin {
+			begin[k] = v
+		}
 		for _, e := range []map[string]any{
-			{"ev": "Begin", "scn": scn, "qlen": 0, "conns": []int{}, "fault": "crash", "at": 0, "closers": 0, "stall": 0},
+			begin,
 			{"ev": "crash", "scn": scn, "text": txt, "killed": killed},
 			{"ev": "End", "scn": scn},
 		} {
@@ -129,4 +142,14 @@ func Run(childMode, in, out string, extra []string, perScenario time.Duration) (
 		done++
 	}
 	return lines, nil
+}
+
+// Guard makes the process exit like a crashed one unless the returned function is called within d:
+// a scenario that wedges the code under test (a deadlock) becomes a recorded outcome of that scenario.
+func Guard(d time.Duration, what string) func() {
+	t := time.AfterFunc(d, func() {
+		fmt.Fprintf(os.Stderr, "panic: watchdog: %s did not finish within %v (deadlock?)\n", what, d)
+		os.Exit(2)
+	})
+	return func() { t.Stop() }
 }
